@@ -228,6 +228,10 @@ where
 
         metadata.update(is_mapped, chunk);
     }
+
+    pub(crate) fn finish(&mut self) {
+        self.index.finish(&self.bins);
+    }
 }
 
 impl<I> binning_index::ReferenceSequence for ReferenceSequence<I>
